@@ -40,7 +40,8 @@ class Prop(BaseProp):
             "`cmake -P` calling the working tree's cminx_gen_rst with CMINX_EXECUTABLE bound to an argv-recording "
             "shim; monitors: recorded argv == [input] + (-r iff directory) + extra + [-o output]; output tree "
             "byte-equal to a direct CLI run with those arguments; on CLI failure cmake fails and the script line after "
-            "the call never runs; the package-config template resolves CMINX_EXECUTABLE and includes the module. "
+            "the call never runs; the package-config template resolves CMINX_EXECUTABLE and includes the module (also loaded "
+            "inside a function scope with the call made from the outer scope). "
             "Distinct = (input kind, extra-argument shape); non-trivial = directory input or extra arguments")
     ASSUMPTIONS = ["extra argument values are non-empty and contain no ';' (CMake list semantics are outside the "
                    "quantifier)", "CMake 3.25.1 as host", "PACKAGE_INIT macros are stubbed for the template check"]
@@ -85,18 +86,30 @@ class Prop(BaseProp):
                     if idx // 9 % 2 else ""
                 res.see("template_with_other_cminx_on_prefix_path", bool(prefix_line))
                 drv = os.path.join(sb, "t.cmake")
+                # the package may be loaded in another scope than the one cminx_gen_rst is called from (find_package inside a
+                # function or a sub-directory): the call must find the executable there too
+                scoped = idx // 18 % 2 == 1
+                res.see("template_loaded_in_inner_scope", scoped)
+                one = os.path.join(sb, "one.cmake")
+                with open(one, "w") as f:
+                    f.write("#[[[\n# doc\n#]]\nfunction(tpl_fn a)\nendfunction()\n")
+                load = f'include({q(cf)})\n' if not scoped else f'function(load_the_package)\n  include({q(cf)})\nendfunction()\nload_the_package()\n'
                 with open(drv, "w") as f:
-                    f.write(prefix_line + f'include({q(cf)})\nif(NOT COMMAND cminx_gen_rst)\n message(FATAL_ERROR "no function")\nendif()\n'
-                            f'file(WRITE {q(os.path.join(sb, "exe.txt"))} "${{CMINX_EXECUTABLE}}")\n')
+                    f.write(prefix_line + load + f'if(NOT COMMAND cminx_gen_rst)\n message(FATAL_ERROR "no function")\nendif()\n'
+                            f'file(WRITE {q(os.path.join(sb, "exe.txt"))} "${{CMINX_EXECUTABLE}}")\n'
+                            f'cminx_gen_rst({q(one)} {q(os.path.join(sb, "tpl_out"))})\n')
                 p = subprocess.run(["cmake", "-P", drv], capture_output=True, env=env, cwd=sb, timeout=120)
                 res.count("template_checks")
                 res.count("cmake_runs")
-                res.sig = sig_hash(["template", idx // 9 % 2])
+                res.sig = sig_hash(["template", idx // 9 % 2, scoped])
                 res.nontrivial = True
                 got = open(os.path.join(sb, "exe.txt")).read() if os.path.exists(os.path.join(sb, "exe.txt")) else None
                 if p.returncode != 0 or got is None or os.path.realpath(got) != os.path.realpath(shim):
-                    res.violate("package-config-template", f"rc={p.returncode} CMINX_EXECUTABLE={got!r} expected {shim!r}: "
-                                f"{p.stderr.decode()[-300:]}", {"config": conf})
+                    res.violate("package-config-template" + (":loaded-in-inner-scope" if scoped else ""),
+                                f"rc={p.returncode} CMINX_EXECUTABLE={got!r} expected {shim!r}: "
+                                f"{p.stderr.decode()[-300:]}", {"config": conf, "driver": open(drv).read()})
+                elif not os.path.exists(os.path.join(sb, "tpl_out", "one.rst")):
+                    res.violate("package-config-template:call-produced-no-page", f"scoped={scoped}", {"config": conf, "driver": open(drv).read()})
                 return res
             tree = gen_tree(rng, max_depth={"flat": 0, "nested": 3, "nested-broken": 2}.get(kind, 1), noncmake=False, mixed_case=False,
                             rich=True, p_sub=1.0 if kind == "nested-broken" else 0.6)
